@@ -14,7 +14,7 @@ RULE = ('cases = generated G-SEL spec with 1-4 metric nodes of every direction/r
         'evaluator value / NaN / reference value for absent constraint, metric_values mirror); one evaluation = one '
         'evaluated architecture; non-trivial = a conditional constraint metric absent in >= 1 and present in >= 1 '
         'architecture; distinct by sha1(spec, evaluator plan)')
-BUDGET = {'quick': 60, 'thorough': 1500}
+BUDGET = {'quick': 150, 'thorough': 4000}
 
 
 @st.composite
@@ -134,7 +134,8 @@ def check_case(case):
         perm = m in perm_doc
         if perm and nd['ref'] is None and m not in obj_names:
             res.add(viol('permanent_metric_not_objective', m, data={'metric': m}))
-        if not (m in in_all) and nd['ref'] is not None and m not in con_names:
+        in_some = any(m in a['nodes'] for a in archs)
+        if in_some and not (m in in_all) and nd['ref'] is not None and m not in con_names:
             res.add(viol('conditional_metric_not_constraint', m, data={'metric': m}))
         if perm and nd['ref'] is not None:
             if nd['type'] == 'OBJECTIVE' and m not in obj_names:
